@@ -8,7 +8,7 @@ from .. import core
 from ..core import SKIP
 
 ID = "C09"
-RULE = ("exhaustive: every sorted non-overlapping bedGraph of <= 3 records on a contig of size 1..S (quick S<=5, thorough S<=7; "
+RULE = ("(v2: pileup leaves, t[mask], float trees on the Lean model) exhaustive: every sorted non-overlapping bedGraph of <= 3 records on a contig of size 1..S (quick S<=5, thorough S<=7; "
         "with/without gaps, starting at 0 or later, ending at or before the size, empty), sizes given and None, int and float "
         "values, through GenomicRunLengthArray.from_bedgraph, from_intervals(values=array), Genome.get_track and "
         "Geometry.get_track on genomes of 1..4 chromosomes (every distribution of <= 3 records over chromosomes of size <= 4); "
@@ -18,7 +18,7 @@ RULE = ("exhaustive: every sorted non-overlapping bedGraph of <= 3 records on a 
         "flags are not all default, or >= 2 chromosomes, or expression depth >= 2")
 EXHAUSTIVE = {"quick": True, "thorough": True}
 PARALLEL = 16
-MODEL_OPS = {"rle_bedgraph", "from_intervals_arr", "track", "geo_track", "expr"}
+MODEL_OPS = {"rle_bedgraph", "from_intervals_arr", "track", "geo_track", "expr", "expr_f"}
 ASSUMPTIONS = [
     "bedGraph records are start < stop, sorted, non-overlapping (stop[i] <= start[i+1]) in genome order, last stop <= size; "
     "from_intervals(values=array) additionally needs stop[i] < start[i+1] (the RunLengthArray constructor rejects empty runs)",
@@ -26,14 +26,16 @@ ASSUMPTIONS = [
     "external: specified in Lean (sliceRle, mapRle, zipRle, joinPairs, sumRle, histRle), its dense meaning proved about the "
     "specification, and its agreement with npstructures is correspondence only (records of get_data are compared exactly)",
     "floats: values are compared by bit pattern after mapping -0.0 to +0.0 (join_runs uses ==, so a run of -0.0 next to +0.0 is "
-    "stored once; both are equal under IEEE ==); generated floats are finite; float expression trees are compared with dense "
-    "NumPy only (no Lean model of IEEE arithmetic)",
+    "stored once; both are equal under IEEE ==); generated floats are finite",
     "a float sum is compared with relative tolerance 1e-9 (sum(run length * value) vs NumPy pairwise summation round differently); "
     "an empty bedGraph gives an int64 zero track whatever the intended value type (dtype is not compared, values are)",
     "int64 wrap-around is out of scope: generated values are small; to_array's xor trick is modelled on the 64-bit two's "
     "complement words (enc64/dec64) and proved for values in the int64 range",
-    "expression-tree leaves are int tracks (Genome.get_track) and interval masks (GenomicIntervals.get_mask); pileup leaves and "
-    "boolean indexing t[mask] are not exercised here",
+    "expression-tree leaves are int tracks (Genome.get_track), interval masks (GenomicIntervals.get_mask) and pileups "
+    "(GenomicIntervals.get_pileup; counting by npstructures, so for trees with a pileup leaf the Lean model is compared on dense "
+    "values and reductions, not on run boundaries); t[mask] is specified at the dense level (values at the True positions)",
+    "float expression trees are also run on the Lean model (Lean Float = IEEE double in the compiled driver; +,-,*,neg,<,>,== are "
+    "exact copies of the NumPy operations, join_runs uses IEEE ==); only the float sum is left to the dense oracle",
 ]
 TRUSTED_EXTRA = []
 
@@ -73,7 +75,7 @@ def _b2f(b):
     return struct.unpack("<d", struct.pack("<Q", int(b)))[0]
 
 
-FLOATS = [_f2b(x) for x in (1.5, -2.25, 0.1, 3.0, -0.5, 1e-3, 7.0, 2.5)]
+FLOATS = [_f2b(x) for x in (1.5, -2.25, 0.1, 3.0, -0.5, 1e-3, 7.0, 2.5, -0.0, 0.0)]
 
 
 def _norm_bits(b):
@@ -219,16 +221,20 @@ def cases(tier, rng):
         if kind == "int":
             yield {"op": "track_str", "sizes": sizes, "recs": recs}
         nI, nB = rng.choice([1, 2, 3]), rng.choice([0, 1, 2])
-        leaves = [{"kind": "int", "recs": _rand_track(rng, sizes, "int")} for _ in range(nI)] + \
+        leaves = [({"kind": "pileup", "recs": _rand_ivs(rng, sizes)} if rng.random() < 0.25 else
+                   {"kind": "int", "recs": _rand_track(rng, sizes, "int")}) for _ in range(nI)] + \
                  [{"kind": "mask", "recs": _rand_ivs(rng, sizes)} for _ in range(nB)]
         want = rng.choice(["int", "bool"])
         tree = _tree(rng, rng.randrange(1, D + 1), want, nI, nB)
         red = rng.choice([None, None, "sum", [-3, 0, 1, 2, 5]]) if want == "int" else rng.choice([None, None, "sum"])
-        yield {"op": "expr", "sizes": sizes, "leaves": leaves, "tree": tree, "red": red}
+        idx = _tree(rng, rng.randrange(0, 3), "bool", nI, nB) if rng.random() < 0.3 else None   # t[mask]
+        yield {"op": "expr", "sizes": sizes, "leaves": leaves, "tree": tree, "red": red, "idx": idx}
         # float trees (dense NumPy only)
         leaves = [{"kind": "float", "recs": _rand_track(rng, sizes, "float") or [[0, 0, 1, FLOATS[0]]]} for _ in range(2)] + \
                  [{"kind": "int", "recs": _rand_track(rng, sizes, "int")}]
-        ftree = _ftree(rng, rng.randrange(1, D + 1))
+        ftree = {"t": "bin", "f": rng.choice(BIN_I), "a": _ftree(rng, rng.randrange(0, D)), "b": {"t": "leaf", "i": rng.randrange(2)}}
+        if rng.random() < 0.5:
+            ftree["a"], ftree["b"] = ftree["b"], ftree["a"]
         if rng.random() < 0.2:
             ftree = {"t": "bin", "f": rng.choice(CMP), "a": ftree, "b": {"t": "leaf", "i": rng.randrange(3)}}
         yield {"op": "expr_f", "sizes": sizes, "leaves": leaves, "tree": ftree, "red": rng.choice([None, "sum"])}
@@ -311,10 +317,11 @@ def _sizes_dict(sizes):
 
 def _leaf_impl(genome, sizes, leaf):
     m = _mods()
-    if leaf["kind"] == "mask":
+    if leaf["kind"] in ("mask", "pileup"):
         r = leaf["recs"]
         iv = m["Interval"](["chr%d" % (x[0] + 1) for x in r], np.array([x[1] for x in r], dtype=int), np.array([x[2] for x in r], dtype=int))
-        return genome.get_intervals(iv).get_mask()
+        gi = genome.get_intervals(iv)
+        return gi.get_mask() if leaf["kind"] == "mask" else gi.get_pileup()
     return genome.get_track(_bg(leaf["recs"], leaf["kind"]))
 
 
@@ -347,6 +354,9 @@ def impl(c):
                 g = _ev(c["tree"], leaves)
                 out = _observe(g, sizes)
                 out["bool"] = bool(g.dtype == bool)
+                if c.get("idx") is not None:
+                    sel = g[_ev(c["idx"], leaves)]
+                    out["idx"] = _out(None, sel.to_array() if hasattr(sel, "to_array") else np.asarray(sel))
                 red = c.get("red")
                 if red == "sum":
                     s = np.sum(g)
@@ -386,14 +396,14 @@ def _split(sizes, recs):
 
 
 def _genome_dense(sizes, leaf):
-    if leaf["kind"] == "mask":
+    if leaf["kind"] in ("mask", "pileup"):
         parts = []
         for c, sz in enumerate(sizes):
-            a = np.zeros(sz, dtype=bool)
+            a = np.zeros(sz, dtype=np.int64)
             for r in leaf["recs"]:
                 if r[0] == c:
-                    a[r[1]:r[2]] = True
-            parts.append(a)
+                    a[r[1]:r[2]] += 1
+            parts.append(a > 0 if leaf["kind"] == "mask" else a)
         return np.concatenate(parts)
     return np.concatenate([_dense(rs, leaf["kind"], sz) for rs, sz in zip(_split(sizes, leaf["recs"]), sizes)])
 
@@ -425,13 +435,15 @@ def oracle(c):
     if op in ("expr", "expr_f"):
         sizes = c["sizes"]
         for l in c["leaves"]:
-            if l["kind"] != "mask" and any(not _ok_bedgraph(rs, sz) for rs, sz in zip(_split(sizes, l["recs"]), sizes)):
+            if l["kind"] not in ("mask", "pileup") and any(not _ok_bedgraph(rs, sz) for rs, sz in zip(_split(sizes, l["recs"]), sizes)):
                 return SKIP
         leaves = [_genome_dense(sizes, l) for l in c["leaves"]]
         with np.errstate(all="ignore"):
             g = _ev(c["tree"], leaves)
             offs = np.insert(np.cumsum(sizes), 0, 0)
             out = {"dict": [_out(None, g[offs[i]:offs[i + 1]]) for i in range(len(sizes))], "bool": bool(g.dtype == bool)}
+            if c.get("idx") is not None:
+                out["idx"] = _out(None, g[_ev(c["idx"], leaves)])
             red = c.get("red")
             if red == "sum":
                 out["sum"] = _out(None, np.asarray([np.sum(g)]))[0]
@@ -465,7 +477,7 @@ def agree(c, got, exp):
         return core.canon(got) == core.canon(exp)
     if got["dict"] != exp["dict"]:
         return False
-    for k in ("bool", "sum", "hist", "str"):
+    for k in ("bool", "sum", "hist", "str", "idx"):
         if k in exp and got.get(k) != exp[k]:
             if k == "sum" and op == "expr_f" and not exp.get("bool"):
                 # a float sum is not an exact copy: sum(len*value) vs NumPy's pairwise sum differ by rounding only
@@ -476,6 +488,21 @@ def agree(c, got, exp):
     return _records_ok(got["data"], got["dict"], exp.get("bool", False))
 
 
+def agree_model(c, got, m):
+    """exact, except: a float sum is not reproducible (NumPy sums pairwise), and for pileup leaves the run boundaries of
+    the external npstructures result are not modelled (dense values and reductions still are)"""
+    if isinstance(got, dict) and isinstance(m, dict) and "err" not in got:
+        drop = set()
+        if c["op"] == "expr_f":
+            drop.add("sum")
+        if c["op"] == "expr" and any(l["kind"] == "pileup" for l in c["leaves"]):
+            drop.add("data")
+        if drop:
+            got = {k: v for k, v in got.items() if k not in drop}
+            m = {k: v for k, v in m.items() if k not in drop}
+    return core.canon(got) == core.canon(m)
+
+
 def finding_key(c, got, exp):
     op = c["op"]
     if isinstance(got, dict) and "err" in got:
@@ -484,7 +511,7 @@ def finding_key(c, got, exp):
         last = c["recs"] and c["recs"][-1][2] < c["sizes"][c["recs"][-1][0]] or (c["recs"] and c["recs"][-1][0] < len(c["sizes"]) - 1)
         return f"{op}:wrong-dense-array" + ("-after-last-record" if last else "")
     if isinstance(got, dict) and "dict" in got and got.get("dict") == exp.get("dict"):
-        for k in ("sum", "hist", "bool", "str"):
+        for k in ("sum", "hist", "bool", "str", "idx"):
             if k in exp and got.get(k) != exp[k]:
                 return f"{op}:wrong-{k}"
         return f"{op}:records-do-not-expand-to-the-array"
